@@ -122,10 +122,17 @@ func TestProp_DataURI(t *testing.T) {
 	ev.Check(t, 30000, func(t *rapid.T) {
 		payload := rapid.SliceOfN(rapid.Byte(), 0, 40).Draw(t, "payload")
 		mt := ""
-		if rapid.IntRange(0, 3).Draw(t, "hasType") > 0 {
-			mt = rapid.OneOf(rapid.SampledFrom([]string{"text/plain", "image/svg+xml", "application/x-foo.bar", "text/html"}),
-				rapid.Custom(func(t *rapid.T) string { return token(t, "type", 1, 6) + "/" + token(t, "subtype", 1, 8) })).Draw(t, "mediatype")
-			for n := rapid.IntRange(0, 2).Draw(t, "nparams"); n > 0; n-- {
+		if ht := rapid.IntRange(0, 4).Draw(t, "hasType"); ht > 0 {
+			if ht < 4 {
+				mt = rapid.OneOf(rapid.SampledFrom([]string{"text/plain", "image/svg+xml", "application/x-foo.bar", "text/html"}),
+					rapid.Custom(func(t *rapid.T) string { return token(t, "type", 1, 6) + "/" + token(t, "subtype", 1, 8) })).Draw(t, "mediatype")
+			}
+			// (ht == 4: parameters without a type: text/plain is understood, RFC 2397)
+			np := rapid.IntRange(0, 2).Draw(t, "nparams")
+			if ht == 4 && np == 0 {
+				np = 1
+			}
+			for n := np; n > 0; n-- {
 				k, v := token(t, "key", 1, 6), token(t, "value", 1, 6)
 				if rapid.IntRange(0, 5).Draw(t, "reservedvalue") == 0 {
 					// the marker word as the VALUE of a parameter (it stands behind '=', not behind ';')
@@ -170,11 +177,18 @@ func TestProp_DataURI(t *testing.T) {
 			t.Fatalf("DataURI(%q): %v", uri, err)
 		}
 		wantMT := mt
+		if strings.HasPrefix(mt, ";") {
+			wantMT = "text/plain" + mt
+		}
 		if mt == "" {
 			wantMT = "text/plain"
 		}
 		if string(gotMT) != wantMT {
 			t.Fatalf("DataURI(%q) media type %q, want %q", uri, gotMT, wantMT)
+		}
+		// what is returned belongs to the caller: overwriting it must not change what a later call returns
+		for i := range gotMT {
+			gotMT[i] = 'X'
 		}
 		if !bytes.Equal(gotData, payload) {
 			t.Fatalf("DataURI(%q) payload %q, want %q", uri, gotData, payload)
